@@ -5,6 +5,7 @@ generated texts and the tests/data corpus: success iff success, identical
 (name, value) sequences at every level with the New container classes,
 identical errors, and identical dumps for each of the four encoders and for
 the no-argument dumps."""
+import io
 import os
 import random
 
@@ -116,6 +117,37 @@ def case(rec, pvl, new, text, src, wit):
                       f"{old_m.errors} vs {new_m.errors}")
         return
     rec.count("content_equal")
+    # the other ways in: bytes, an open text stream; and dump to a stream
+    data = text.encode("utf-8")
+    for rname, fo, fn in (
+            ("loads(bytes)", lambda: pvl.loads(data), lambda: new.loads(data)),
+            ("load(text stream)", lambda: pvl.load(io.StringIO(text)),
+             lambda: new.load(io.StringIO(text))),
+            ("load(binary stream)", lambda: pvl.load(io.BytesIO(data)),
+             lambda: new.load(io.BytesIO(data)))):
+        a, b = outcome(fo), outcome(fn)
+        rec.count(f"route[{rname}]")
+        if a[0] != b[0]:
+            rec.violation(CHECK, rname, "success-differs",
+                          {"default": a[0], "new": b[0],
+                           "new_exc": b[1] if b[0] == "exc" else None}, wit,
+                          f"{a[:2]!r:.150} vs {b[:2]!r:.150}")
+        elif a[0] == "ok":
+            d = same(a[1], b[1])
+            if d:
+                rec.violation(CHECK, rname, "content-differs", {}, wit,
+                              f"{d[0]}: {d[1]}")
+
+    def to_stream(mod, m):
+        out = io.StringIO()
+        mod.dump(m, out)
+        return out.getvalue()
+    a = outcome(lambda: to_stream(pvl, pvl.loads(text)))
+    b = outcome(lambda: to_stream(new, new.loads(text)))
+    rec.count("route[dump(text stream)]")
+    if a[0] != b[0] or (a[0] == "ok" and a[1] != b[1]):
+        rec.violation(CHECK, "dump(text stream)", "text-differs", {}, wit,
+                      f"{a!r:.200} vs {b!r:.200}")
     encs = {
         "noargs": (lambda m: pvl.dumps(m), lambda m: new.dumps(m)),
     }
